@@ -242,7 +242,7 @@ func (c *Ctx) Finish() {
 	c.mu.Lock()
 	defer c.mu.Unlock()
 	if c.ChildOut != "" {
-		r := ChildResult{Evals: c.evals, Distinct: int64(len(c.distinct)), States: c.states, Trans: c.trans, Traces: c.traces,
+		r := ChildResult{Evals: c.evals, Distinct: int64(len(c.distinct)) + c.mergedDistinct, States: c.states, Trans: c.trans, Traces: c.traces,
 			Samples: c.samples, Extra: c.Extra, Caps: c.Caps, Violations: c.childViol, Rule: c.Rule, Assume: c.Assume}
 		js, err := json.Marshal(r)
 		if err != nil {
